@@ -210,6 +210,21 @@ fn faults_for(mode: Mode, tier: Tier, seed: u64, img: &ImageInfo) -> Vec<Fault> 
     let b = budget(mode, tier);
     let total: usize = img.bytes.iter().map(|f| f.len()).sum();
     let small = total <= b.exhaustive_upto;
+    // images of several megabytes: every case copies, hashes and walks the whole image, so the
+    // sampled budget is cut down (the interesting property of such an image is its size class)
+    let huge = total > (4 << 20);
+    let b = if huge {
+        Budget {
+            sampled_positions: b.sampled_positions / 25,
+            ranges: b.ranges / 10,
+            two_site: b.two_site / 10,
+            trunc_stride_large: if b.trunc_stride_large > 0 { 400_000 } else { 0 },
+            masks: &b.masks[..1],
+            ..b
+        }
+    } else {
+        b
+    };
     let mut rng = Rng::derive(seed, "faults", simcore::prng::hash_label(0, &img.name, mode as u64));
     let mut out = Vec::new();
     for (fi, file) in img.bytes.iter().enumerate() {
@@ -865,33 +880,7 @@ pub fn worker_main(args: &Args, mode: Mode, w: usize, n: usize) -> ! {
             Some(bin) => proc::run_batch_with(Path::new(bin), &make_args, lo, hi, watchdog),
         };
         for (i, outcome) in outcomes {
-            let fault = &faults[i as usize];
-            let structure = structure_at(img, fault);
-            let rec = match outcome {
-                CaseOutcome::Done(payload) => {
-                    let (js, panics) = match payload.split_once(" |panics: ") {
-                        Some((a, b)) => (a.to_string(), Some(b.to_string())),
-                        None => (payload, None),
-                    };
-                    let v: Value = serde_json::from_str(&js).unwrap_or(json!({"unparsed": js}));
-                    json!({"t":"case","image":img.name,"ii":ii,"i":i,"fault":fault.encode(),"kind":fault.kind(),
-                           "structure":structure,"outcome":"done","payload":v,
-                           "panics": panics.map(|p| p.split(" ; ").map(norm_panic).collect::<Vec<_>>()),
-                           "profile": profile})
-                }
-                CaseOutcome::Died { how, panics } => {
-                    json!({"t":"case","image":img.name,"ii":ii,"i":i,"fault":fault.encode(),"kind":fault.kind(),
-                           "structure":structure,"outcome":"died","how":how,
-                           "panics": panics.iter().map(|p| norm_panic(p)).collect::<Vec<_>>(),
-                           "profile": profile})
-                }
-                CaseOutcome::Hung { panics } => {
-                    json!({"t":"case","image":img.name,"ii":ii,"i":i,"fault":fault.encode(),"kind":fault.kind(),
-                           "structure":structure,"outcome":"hung",
-                           "panics": panics.iter().map(|p| norm_panic(p)).collect::<Vec<_>>(),
-                           "profile": profile})
-                }
-            };
+            let rec = case_record(img, ii, i, &faults[i as usize], outcome, &profile);
             println!("{rec}");
         }
         let _ = std::fs::remove_dir_all(&dir);
@@ -959,6 +948,84 @@ fn debug_bin() -> String {
         .unwrap_or_else(|| PathBuf::from("/verif/sim/target/debug/simf"))
         .to_string_lossy()
         .to_string()
+}
+
+/// The verdict on one case record (shared by the campaign and by `--replay`): the violation's
+/// signature, or None. `rec["damaged_pack"]` must be set for C04.
+fn judge_case(mode: Mode, profile: &str, rec: &Value, exempt: bool) -> Option<String> {
+    let kind = rec["kind"].as_str().unwrap_or("?");
+    let outcome = rec["outcome"].as_str().unwrap_or("?");
+    let structure = rec["structure"].as_str().unwrap_or("");
+    let panics: Vec<String> = rec["panics"]
+        .as_array()
+        .map(|a| a.iter().filter_map(|s| s.as_str().map(|s| s.to_string())).collect())
+        .unwrap_or_default();
+    match mode {
+        Mode::C04 => c04_violation(rec, exempt)
+            .map(|what| format!("C04|{kind}|{structure}|still-true:{what}")),
+        Mode::C05 => {
+            if outcome != "done" || rec["payload"]["caught_panic"] == true {
+                return None; // deferred to C06
+            }
+            let nd = rec["payload"]["ndiffs"].as_u64().unwrap_or(0);
+            if nd == 0 {
+                return None;
+            }
+            let first = rec["payload"]["diffs"][0].as_str().unwrap_or("").to_string();
+            let leaf = first.split(':').next().unwrap_or("").to_string();
+            // leaf path with indices collapsed
+            let leaf_norm: String = leaf
+                .chars()
+                .map(|c| if c.is_ascii_digit() { 'N' } else { c })
+                .collect();
+            Some(format!("C05|{kind}|{structure}|{leaf_norm}"))
+        }
+        Mode::C06 => {
+            let class = if outcome == "hung" {
+                Some("hang".to_string())
+            } else if outcome == "died" {
+                Some(format!("died:{}", rec["how"].as_str().unwrap_or("?")))
+            } else if rec["payload"]["caught_panic"] == true || !panics.is_empty() {
+                Some("panic".to_string())
+            } else {
+                None
+            };
+            class.map(|class| {
+                let p0 = panics.first().cloned().unwrap_or_default();
+                format!("C06|{profile}|{kind}|{structure}|{class}|{p0}")
+            })
+        }
+    }
+}
+
+/// One case record as the workers print it.
+fn case_record(img: &ImageInfo, ii: usize, i: u64, fault: &Fault, outcome: CaseOutcome, profile: &str) -> Value {
+    let structure = structure_at(img, fault);
+    match outcome {
+        CaseOutcome::Done(payload) => {
+            let (js, panics) = match payload.split_once(" |panics: ") {
+                Some((a, b)) => (a.to_string(), Some(b.to_string())),
+                None => (payload, None),
+            };
+            let v: Value = serde_json::from_str(&js).unwrap_or(json!({"unparsed": js}));
+            json!({"t":"case","image":img.name,"ii":ii,"i":i,"fault":fault.encode(),"kind":fault.kind(),
+                   "structure":structure,"outcome":"done","payload":v,
+                   "panics": panics.map(|p| p.split(" ; ").map(norm_panic).collect::<Vec<_>>()),
+                   "profile": profile})
+        }
+        CaseOutcome::Died { how, panics } => {
+            json!({"t":"case","image":img.name,"ii":ii,"i":i,"fault":fault.encode(),"kind":fault.kind(),
+                   "structure":structure,"outcome":"died","how":how,
+                   "panics": panics.iter().map(|p| norm_panic(p)).collect::<Vec<_>>(),
+                   "profile": profile})
+        }
+        CaseOutcome::Hung { panics } => {
+            json!({"t":"case","image":img.name,"ii":ii,"i":i,"fault":fault.encode(),"kind":fault.kind(),
+                   "structure":structure,"outcome":"hung",
+                   "panics": panics.iter().map(|p| norm_panic(p)).collect::<Vec<_>>(),
+                   "profile": profile})
+        }
+    }
 }
 
 pub fn parent_main(args: &Args, mode: Mode) -> ! {
@@ -1061,78 +1128,34 @@ pub fn parent_main(args: &Args, mode: Mode) -> ! {
             }
             let image = rec["image"].as_str().unwrap_or("").to_string();
             let fault_s = rec["fault"].as_str().unwrap_or("").to_string();
-            let panics: Vec<String> = rec["panics"]
-                .as_array()
-                .map(|a| a.iter().filter_map(|s| s.as_str().map(|s| s.to_string())).collect())
-                .unwrap_or_default();
-            let structure = rec["structure"].as_str().unwrap_or("").to_string();
-            match mode {
-                Mode::C04 => {
-                    let fault = Fault::decode(&fault_s).unwrap();
-                    let img = imgs.iter().find(|i| i.name == image).unwrap();
-                    let (exempt, damaged_pack) = c04_attribution(img, &fault);
-                    if exempt {
-                        exempt_counted += 1;
-                    }
-                    rec["damaged_pack"] = json!(damaged_pack);
-                    for (_k, v) in rec["payload"]["obs"]["held_handles"].as_object().into_iter().flatten() {
-                        if v == "true" {
-                            held_stale_true += 1;
-                        } else {
-                            held_noticed += 1;
-                        }
-                    }
-                    if let Some(what) = c04_violation(&rec, exempt) {
-                        violations.push(Violation {
-                            signature: format!("C04|{kind}|{structure}|still-true:{what}"),
-                            image,
-                            fault: fault_s,
-                            detail: rec.clone(),
-                        });
-                    }
+            let mut exempt = false;
+            if mode == Mode::C04 {
+                let fault = Fault::decode(&fault_s).unwrap();
+                let img = imgs.iter().find(|i| i.name == image).unwrap();
+                let (ex, damaged_pack) = c04_attribution(img, &fault);
+                exempt = ex;
+                if exempt {
+                    exempt_counted += 1;
                 }
-                Mode::C05 => {
-                    if outcome != "done" || rec["payload"]["caught_panic"] == true {
-                        deferred += 1;
-                        continue;
-                    }
-                    let nd = rec["payload"]["ndiffs"].as_u64().unwrap_or(0);
-                    if nd > 0 {
-                        let first = rec["payload"]["diffs"][0].as_str().unwrap_or("").to_string();
-                        let leaf = first.split(':').next().unwrap_or("").to_string();
-                        // leaf path with indices collapsed
-                        let leaf_norm: String = leaf
-                            .chars()
-                            .map(|c| if c.is_ascii_digit() { 'N' } else { c })
-                            .collect();
-                        violations.push(Violation {
-                            signature: format!("C05|{kind}|{structure}|{leaf_norm}"),
-                            image,
-                            fault: fault_s,
-                            detail: rec.clone(),
-                        });
-                    }
-                }
-                Mode::C06 => {
-                    let class = if outcome == "hung" {
-                        Some("hang".to_string())
-                    } else if outcome == "died" {
-                        Some(format!("died:{}", rec["how"].as_str().unwrap_or("?")))
-                    } else if rec["payload"]["caught_panic"] == true || !panics.is_empty() {
-                        Some("panic".to_string())
+                rec["damaged_pack"] = json!(damaged_pack);
+                for (_k, v) in rec["payload"]["obs"]["held_handles"].as_object().into_iter().flatten() {
+                    if v == "true" {
+                        held_stale_true += 1;
                     } else {
-                        None
-                    };
-                    if let Some(class) = class {
-                        let p0 = panics.first().cloned().unwrap_or_default();
-                        violations.push(Violation {
-                            signature: format!("C06|{profile}|{kind}|{structure}|{class}|{p0}"),
-                            image,
-                            fault: fault_s,
-                            detail: rec.clone(),
-                        });
+                        held_noticed += 1;
                     }
                 }
+            }
+            if mode == Mode::C05 && (outcome != "done" || rec["payload"]["caught_panic"] == true) {
+                deferred += 1;
+            }
+            if let Some(signature) = judge_case(mode, profile, &rec, exempt) {
+                violations.push(Violation {
+                    signature,
+                    image,
+                    fault: fault_s,
+                    detail: rec.clone(),
+                });
             }
         }
     }
@@ -1151,7 +1174,7 @@ pub fn parent_main(args: &Args, mode: Mode) -> ! {
         println!("KNOWN-FINDING: property={id} {kid}: {what} ({count} cases this run)");
     }
     ev.rule = match mode {
-        Mode::C04 => "images = fixed grid (5 packagings x 4 compressions x {1,5,40} contents) + multi-pack, >4KiB-directory and 1100-content images; faults = every byte of every manifest/directory/content pack's checked range [pack start, check block end) x masks on small images (seeded sample + header + check block on large ones) plus seeded 2..64-byte zero/overwrite ranges; a case is non-trivial when the fault changed at least one stored byte; distinct = distinct (image, fault)".to_string(),
+        Mode::C04 => "images = fixed grid (5 packagings x 4 compressions x {1,5,40} contents) + multi-pack, >4KiB-directory, 1100-content and >16MiB-value-store images; faults = every byte of every manifest/directory/content pack's checked range [pack start, check block end) x masks on small images (seeded sample + header + check block on large ones) plus seeded 2..64-byte zero/overwrite ranges; a case is non-trivial when the fault changed at least one stored byte; distinct = distinct (image, fault)".to_string(),
         Mode::C05 => "same images; faults = every file position x masks on small images (sampled on large ones), seeded 2..512-byte zero/overwrite ranges, two-site flips; each case: full logical dump of the damaged file set in a child process compared leaf by leaf with the pristine dump; non-trivial = the fault changed a stored byte; distinct = distinct (image, fault)".to_string(),
         Mode::C06 => "same images; faults = every truncation length, byte flips, zero/overwrite ranges, appended/prepended garbage, empty file, random non-jubako file, file swapped with another file of the set; each case run in a child process in a release and in a debug(-assertions) build; outcome classes: value/error (ok), panic (hook), death by abort/signal, silence past the watchdog; non-trivial = the fault changed a stored byte; distinct = distinct (image, fault) over both profiles".to_string(),
     };
@@ -1286,11 +1309,25 @@ pub fn replay_main(args: &Args, mode: Mode, file: &str) -> ! {
         rest: vec![],
     };
     std::env::set_var("VERIF_ONLY_IMAGE", &image);
+    if fault == "none" {
+        // fault-free violation: the image as created does not read back as its model says.
+        // `build_images` prints the mismatch record and leaves the image out.
+        let imgs = build_images(&hooks, &a2, &scratch);
+        if imgs.iter().any(|i| i.name == image) {
+            println!("no violation on replay (image {image} reads back as its model says)");
+            std::process::exit(0)
+        }
+        println!("VIOLATION property={} replay={file}", mode.id());
+        println!("  recorded signature: {}", v["signature"]);
+        std::process::exit(1)
+    }
     let imgs = build_images(&hooks, &a2, &scratch);
     let img = imgs
         .iter()
         .find(|i| i.name == image)
-        .unwrap_or_else(|| simcore::harness_error("replay: image not in grid"));
+        .unwrap_or_else(|| simcore::harness_error("replay: image not in grid (or it does not read back fault-free any more)"));
+    let fault_d = Fault::decode(&fault)
+        .unwrap_or_else(|| simcore::harness_error("replay: fault does not parse"));
     let dir = scratch.sub("replay");
     std::fs::create_dir_all(dir.join("pristine")).unwrap();
     write_files(&dir.join("pristine"), &img.files, &img.bytes);
@@ -1310,20 +1347,44 @@ pub fn replay_main(args: &Args, mode: Mode, file: &str) -> ! {
             b.to_string(),
         ]
     };
-    let bins: Vec<Option<String>> = if mode == Mode::C06 {
-        vec![None, Some(debug_bin())]
+    let bins: Vec<(&str, Option<String>)> = if mode == Mode::C06 {
+        vec![("release", None), ("debug", Some(debug_bin()))]
     } else {
-        vec![None]
+        vec![("release", None)]
     };
-    for bin in bins {
+    let mut found: Vec<String> = vec![];
+    for (profile, bin) in bins {
         let outcomes = match &bin {
             None => proc::run_batch(&make_args, 0, 1, Duration::from_secs(20)),
             Some(b) => proc::run_batch_with(Path::new(b), &make_args, 0, 1, Duration::from_secs(20)),
         };
-        println!("replay {image} {fault} [{}]: {:?}", bin.as_deref().unwrap_or("release"), outcomes);
+        for (i, outcome) in outcomes {
+            println!("replay {image} {fault} [{profile}]: {outcome:?}");
+            let mut rec = case_record(img, 0, i, &fault_d, outcome, profile);
+            let mut exempt = false;
+            if mode == Mode::C04 {
+                let (ex, damaged_pack) = c04_attribution(img, &fault_d);
+                exempt = ex;
+                rec["damaged_pack"] = json!(damaged_pack);
+            }
+            if let Some(sig) = judge_case(mode, profile, &rec, exempt) {
+                found.push(sig);
+            }
+        }
     }
     println!("recorded signature: {}", v["signature"]);
-    std::process::exit(0)
+    if found.is_empty() {
+        println!("no violation on replay");
+        std::process::exit(0)
+    }
+    println!("VIOLATION property={} replay={file}", mode.id());
+    for sig in &found {
+        println!("  signature: {sig}");
+    }
+    if !found.iter().any(|s| Some(s.as_str()) == v["signature"].as_str()) {
+        println!("  (a violation, but not the recorded signature)");
+    }
+    std::process::exit(1)
 }
 
 #[allow(dead_code)]
